@@ -303,7 +303,9 @@ mixed flags and `end` links).
 In the document type, beyond `JFields`: the array part of a mixed container holds scalars,
 operators (`0=2`: inside the array part the `Operator(Equal)` token is kept; `?=` is not an operator
 there) and containers that start with a scalar (objects, arrays, mixed containers — ParseOpen then
-flags the enclosing container, which keeps the mixed mode alive).
+flags the enclosing container, which keeps the mixed mode alive); a nested object whose FIRST
+field is a header field (`{ a = rgb { 1 } … }`) or a parameter block (`{ [[p] v] … }`,
+`{ [[p] k = v … ] … }`).
 
 Still outside (tolerated malformations and quirks, see the examples below): an empty container,
 a container starting with `{` or a ghost `{}`, or a parameter block inside the array part of a mixed
@@ -351,6 +353,25 @@ def exampleFullMixed : FFields :=
 
 /-- … the expected tape of the specification is what the parser model produces on it -/
 example : parse (frenderF exampleFullMixed ++ [10]) = .ok (ftapeF exampleFullMixed 0 [10]) false := by
+  decide +kernel
+
+/-- `x={a=rgb{1} c=d}`: a header field as first field of a nested object -/
+def exampleFullHdrFirst : FFields :=
+  .cons [] ⟨false, [120]⟩ [] .eq
+    (.obj [] [] (.flds (.consHdr [] ⟨false, [97]⟩ [] .eq [] ⟨false, [114, 103, 98]⟩
+        (.arrS [] [] ⟨false, [49]⟩ .nil [])
+        (.cons [32] ⟨false, [99]⟩ [] .eq (.scal [] ⟨false, [100]⟩) .nil))) .nil []) .nil
+
+example : parse (frenderF exampleFullHdrFirst ++ [10]) = .ok (ftapeF exampleFullHdrFirst 0 [10]) false := by
+  decide +kernel
+
+/-- `x={[[p] v] c=d}`: a parameter block as first field of a nested object -/
+def exampleFullParamFirst : FFields :=
+  .cons [] ⟨false, [120]⟩ [] .eq
+    (.obj [] [] (.flds (.paramVal [] false [112] [32] ⟨false, [118]⟩ []
+        (.cons [32] ⟨false, [99]⟩ [] .eq (.scal [] ⟨false, [100]⟩) .nil))) .nil []) .nil
+
+example : parse (frenderF exampleFullParamFirst ++ [10]) = .ok (ftapeF exampleFullParamFirst 0 [10]) false := by
   decide +kernel
 
 /-- `a=b c d`: a mixed top level is not accepted -/
